@@ -803,7 +803,9 @@ class OdeSystem(object):
         if np.isinf(D.ar_numpy.to_numpy(tf)):
             return 10
         else:
-            return max(1, min(5000, int((tf - self.__t[self.counter]) / self.dt)))
+            # (in double precision: the quotient of a long span and a short step overflows in half precision)
+            __steps = float(D.ar_numpy.to_numpy(tf - self.__t[self.counter])) / float(D.ar_numpy.to_numpy(self.dt))
+            return max(1, min(5000, int(__steps) if np.isfinite(__steps) else 5000))
 
     def __allocate_soln_space(self, num_units):
         try:
